@@ -97,7 +97,8 @@ impl Blob {
 
         // Update blob section header with actual lenght
         let end_offset = writer.physical_position()?;
-        section_header.section_length = length;
+        // The section length covers the section header and the blob data, padded to four bytes
+        section_header.section_length = (BlobSectionHeader::SIZE + length).next_multiple_of(4);
         writer.physical_seek(start_offset)?;
         section_header.to_writer(writer)?;
         writer.physical_seek(end_offset)?;
@@ -118,6 +119,8 @@ struct BlobSectionHeader {
 }
 
 impl BlobSectionHeader {
+    const SIZE: u64 = 16;
+
     fn from_array(buffer: &[u8; 16]) -> Result<Self> {
         let section_id = buffer[0];
         if section_id != 0 {
